@@ -131,5 +131,5 @@ PROPS["C08"] = Prop(
              "(hex float -> exact Q literal)", "Coq 8.16.1 vm_compute over Q"],
     assumptions=["order conditions of Hairer-Wanner IV.7 for constant diagonal gamma, tolerance 2^-40 on residuals"],
     translators=(params2coq.generate,),
-    extra_vo=("gen/RosParams.vo",),
+    extra_vo=("gen/RosParams.v",),
 )
